@@ -196,6 +196,7 @@ fn nonterminating() -> Vec<(&'static str, Vec<String>)> {
         ("FOR re-entered by GOTO", vec!["10 FOR I=1 TO 9".into(), "20 GOTO 10".into()]),
         ("GOSUB ping-pong", vec!["10 GOSUB 100: GOTO 10".into(), "100 RETURN".into()]),
         ("two lines jumping to each other", vec!["10 GOTO 20".into(), "20 GOTO 10".into()]),
+        ("huge exponents and operands in a loop", vec!["10 X = 1 ^ 10000000000000000 + 0 ^ 9007199254740993 + (0-1) ^ 9007199254740992".into(), "20 Y = 2 ^ 0.5 * 10000000000000000 / 3: Z = INT(10000000000000000000000 / 7) + ABS(0 - 10000000000000000000000)".into(), "30 GOTO 10".into()]),
         ("three-line jump cycle entered from outside", vec!["10 GOTO 30".into(), "20 GOTO 40".into(), "30 GOTO 20".into(), "40 GOTO 30".into()]),
     ];
     let long_line = format!("10 {}: GOTO 10", vec!["X=X+1"; 200].join(": "));
